@@ -91,7 +91,8 @@ PROPS = {
     "C03": {
         "generated": True,
         "proof_modules": ["GrolProofs.Props.C03", "GrolProofs.Props.C08"],
-        "theorems": ["Grol.C03.model_is_stateless", "Grol.C03.witness_not_idempotent", "Grol.C08.printer_never_panics"],
+        "theorems": ["Grol.C03.ends_with_newline", "Grol.Printer.printNode_frame", "Grol.C03.model_is_stateless",
+                     "Grol.C03.witness_not_idempotent", "Grol.C08.printer_never_panics"],
         "suites": ["format03"],
         "rule": _FRONT_RULE + " format03 suite: same cases as the format suite; statement = second-pass text byte-identical to the first "
                 "(normal and compact), normal text ends with exactly one newline, and (every 40th case) same bytes after token.Init() reset the "
